@@ -3,6 +3,7 @@
 import json, sys
 
 BLOCK_NOTE = "Trusted: go/ssa translation + gosym/asmsym executors (validated on every run by native replay of solver models, and by `vcheck selftest` which runs the executor as a plain interpreter against native execution), z3 5.1.0/4.8.12, the reference models in harness/ref. Bounds and what lies outside them are in the evidence file."
+FRAME_NOTE = "Sequential operation only (concurrency = 1: goroutines/channels are not encoded). Trusted: go/ssa translation + gosym executor (witnesses replayed natively every run), z3, the reference frame parser / block decoder / XXH32 in harness/ref; sync.Pool, fmt.Errorf, block hashes are modelled as described in DESIGN.md section 2."
 CHECKS = {
  "C01": dict(
   text="Bounded symbolic model checking of the real compressors and decoders: for every source content at each length in the bound (and the periodic long-match family) the fast and HC compressors (fresh, reused with arbitrary prior tables, pooled) are executed symbolically, the block is decoded by the real decoder (portable Go and amd64 assembly) and the result compared with the source. Verdicts are SMT unsat answers / syntactic identities; solver models are replayed natively.",
@@ -44,6 +45,51 @@ CHECKS = {
   note=BLOCK_NOTE + " Only the block-level clause of C14 is claimed; concurrency and scheduling are outside.",
   technique="self-composition under bounded symbolic execution of go/ssa + SMT (z3), native replay",
   design="DESIGN.md section 5 C14"),
+ "C02": dict(
+  text="The real Writer and the real Reader are executed symbolically end to end (concurrency 1): for every content of short inputs over the option matrix (block size x block checksum x content checksum x symbolic content size x level x legacy), nine delivery shapes (Write splits, Flush, ReadFrom with four source fragmentation modes, byte-by-byte) and five read-back shapes (direct and buffered Read, WriteTo), the decoded bytes equal the input and the stream ends cleanly; compressible 40/70-byte inputs exercise real compressed blocks.",
+  note=FRAME_NOTE,
+  technique="bounded symbolic execution of go/ssa (Writer -> Reader, std-lib io code executed) + SMT (z3), native replay",
+  design="DESIGN.md section 5 C02"),
+ "C05": dict(
+  text="Reader acceptance is compared with a reference frame parser run on exactly the bytes the Reader consumed: arbitrary symbolic streams of up to 8 bytes after six prefixes (nothing, frame magic, legacy magic, skippable magic, two valid headers) decided by the solver, and every single-byte mutation position of Writer-made frames (mutation values enumerated, content concrete, because symbolic bytes under XXH32 comparisons only pose collision searches). Two classes of legacy/DictID permissiveness are listed as known findings; anything else accepted is a violation.",
+  note=FRAME_NOTE,
+  technique="bounded symbolic execution of go/ssa + reference-parser oracle + SMT (z3), native replay",
+  design="DESIGN.md section 5 C05"),
+ "C06": dict(
+  text="Frames produced by the real Writer (21 templates over checksums/size/legacy/compressed/stored/empty blocks, content symbolic) are cut at a symbolically chosen position (every position 1..len-1, enumerated by the solver) and read back through Read (direct and buffered) and WriteTo under four source fragmentation modes: never a clean end, error is not and does not wrap io.EOF, delivered bytes are a prefix; legacy frames exempt exactly at block boundaries.",
+  note=FRAME_NOTE,
+  technique="bounded symbolic execution of go/ssa with symbolic cut position + SMT (z3), native replay",
+  design="DESIGN.md section 5 C06"),
+ "C07": dict(
+  text="Arbitrary symbolic streams (as C05) with implicit obligations on every path: no escaping panic, every loop inside its unwinding bound, call depth bounded, every single allocation below the declared block maximum whatever the symbolic field values; invalid-magic and skippable-magic clauses as assertions; repetition of legacy magics / empty skippable frames with the call depth required not to grow (replayed natively with 3*10^7 repetitions). The 'never blocks forever' clause under concurrency is not claimed.",
+  note=FRAME_NOTE + " Partial claim: sequential decoding only.",
+  technique="bounded symbolic execution of go/ssa with unwinding/depth/allocation obligations + SMT (z3), native replay",
+  design="DESIGN.md section 5 C07"),
+ "C09": dict(
+  text="Every frame image produced in the C02 exploration (as terms over the symbolic input) is parsed by a reference frame parser written from the specification: accepted, nothing after it, version 01, reserved bits 0, header checksum, configured content size, flags as configured, blocks within the maximum, block checksum over the stored bytes, content checksum, end mark, content equal to the input; legacy: magic + plain blocks.",
+  note=FRAME_NOTE + " The incompressible-8-MiB legacy block case is not reached.",
+  technique="bounded symbolic execution of go/ssa + reference-parser oracle + SMT (z3), native replay",
+  design="DESIGN.md section 5 C09"),
+ "C15": dict(
+  text="The index of the failing call of the underlying writer (or reader) is a symbolic variable ranging over all calls of the fault-free run of 21 frame templates: the injected error is returned (never io.EOF), what had reached the sink is a prefix of the fault-free output, delivered bytes are a prefix of the content; decoding under four source fragmentation modes equals the unfragmented result.",
+  note=FRAME_NOTE,
+  technique="bounded symbolic execution of go/ssa with symbolic fault index + SMT (z3), native replay",
+  design="DESIGN.md section 5 C15"),
+ "C16": dict(
+  text="Frames with BlockIndependence = 0 are assembled by an independent encoder in the harness (stored and literal-only blocks of 3 bytes to 70000 bytes, then a compressed block whose match reaches 1 .. 65535 bytes back across them); the bytes the match reads are symbolic, so the assertion output == expected depends on the Reader's dictionary bookkeeping delivering exactly those bytes; Read/WriteTo, ConcurrencyOption(4) falling back.",
+  note=FRAME_NOTE + " Offsets are case-split, not symbolic; up to 5 blocks.",
+  technique="bounded symbolic execution of go/ssa over hand-built dependent-block frames + SMT (z3), native replay",
+  design="DESIGN.md section 5 C16"),
+ "C17": dict(
+  text="Every sequence of 4 calls with symbolically chosen opcodes on a Writer (Apply, Write, ReadFrom, Flush, Close, Reset new/same sink) and on a Reader (Read small/large/empty, WriteTo, Size, Reset) is executed and compared after each call with the reference model of the statement (exactly-once emission as one frame, decodable prefix after Flush, options persistence, failures after Close, sticky end of stream without consuming the source); hangs show up as unwinding failures.",
+  note=FRAME_NOTE,
+  technique="bounded symbolic execution of go/ssa over symbolic call sequences vs reference model + SMT (z3), native replay",
+  design="DESIGN.md section 5 C17"),
+ "C18": dict(
+  text="The compressing reader is driven with buffer sizes chosen symbolically per call from {0,1,3,6,7,8,40,70000} (and, for a two-block 64 KiB source, sizes ending exactly on a block boundary +-1), sources of symbolic bytes with four fragmentation modes and a symbolic failing call: per-call count bounds and progress, the concatenation is one frame accepted by the reference parser reflecting the options and decoding to the source, io.EOF afterwards, source errors passed through.",
+  note=FRAME_NOTE,
+  technique="bounded symbolic execution of go/ssa with symbolic buffer sizes + reference-parser oracle + SMT (z3), native replay",
+  design="DESIGN.md section 5 C18"),
  "C19": dict(
   text="One symbolic header (FLG, BD, eight size bytes, checksum byte: the complete 2^16 x 2^64 x 2^8 space) through ValidFrameHeader and Reader.Read/Size, compared with the specification's acceptance rule computed with the reference XXH32; a symbolic 32-bit first word for the non-magic clause. Complete over the stated space, decided by SMT.",
   note="Trusted: go/ssa translation + gosym executor, z3, reference XXH32; fmt.Errorf modelled as an error wrapping its %w operand.",
